@@ -467,16 +467,56 @@ theorem model_squash_segmenter_eq_sequential_set (cfg : Cfg) (sem : Sem) (hpol :
   obtain ⟨f, h1, h2⟩ := model_squash_segmenter_eq_sequential_refine (refSet cfg sem hpol) s hk hlt callsAt ha hF hG k
   exact ORel_eq h1 h2
 
+/-- a per-block hypothesis on the calls of the blocks `[init, end)` is a hypothesis on the segmenter's cut: with
+it, every `model_squash_eq_sequential_*` theorem above applies to `segmenterCut s callsAt` as it stands. -/
+theorem callsAre_segmenterCut (P : Op → Prop) (s : Segmenter) (hk : 0 < s.interval) (hlt : s.init < s.end_)
+    (callsAt : Nat → List Op)
+    (ha : ∀ b, s.init ≤ b → b < s.end_ → ∀ op ∈ callsAt b, op.kind = .deletePrefix ∨ P op) :
+    CallsAre P (segmenterCut s callsAt) := by
+  intro seg hseg calls hcalls op hop
+  obtain ⟨r, hr, rfl⟩ := List.mem_map.1 hseg
+  obtain ⟨b, hb, rfl⟩ := List.mem_map.1 hcalls
+  have hbr : r.start ≤ b ∧ b < r.stop := by
+    have := List.mem_range'_1.1 hb; omega
+  have hu := Segmenter.segments_mem_bounds s hk hlt hr
+  exact ha b (by omega) (by omega) op hop
+
 /-- **C13 ∘ C02** for `add` over int64. -/
 theorem model_squash_segmenter_eq_sequential_add_int64 (cfg : Cfg) (hpol : cfg.policy = .add) (hvt : cfg.vt = .int64)
     (s : Segmenter) (hk : 0 < s.interval) (hlt : s.init < s.end_) (callsAt : Nat → List Op)
+    (ha : ∀ b, s.init ≤ b → b < s.end_ → ∀ op ∈ callsAt b, op.kind = .deletePrefix ∨ op.kind = .sum .int64)
     {F G : Store}
     (hF : seqRun cfg (stdSem cfg) Store.empty ((List.range' s.init (s.end_ - s.init)).map callsAt) = .ok F)
-    (hG : squashRun cfg (stdSem cfg) Store.empty (segmenterCut s callsAt) = some G)
-    (hcut : CallsAre (fun op => op.kind = .sum .int64) (segmenterCut s callsAt)) :
+    (hG : squashRun cfg (stdSem cfg) Store.empty (segmenterCut s callsAt) = some G) :
     ∀ k, look F.kv k = look G.kv k := by
   rw [← segmenterCut_flatten s hk hlt callsAt] at hF
-  exact model_squash_eq_sequential_add_int64 cfg hpol hvt (segmenterCut s callsAt) hcut hF hG
+  exact model_squash_eq_sequential_add_int64 cfg hpol hvt (segmenterCut s callsAt)
+    (callsAre_segmenterCut _ s hk hlt callsAt ha) hF hG
+
+/-- **C13 ∘ C02** for `append`. -/
+theorem model_squash_segmenter_eq_sequential_append (cfg : Cfg) (hpol : cfg.policy = .append)
+    (s : Segmenter) (hk : 0 < s.interval) (hlt : s.init < s.end_) (callsAt : Nat → List Op)
+    (ha : ∀ b, s.init ≤ b → b < s.end_ → ∀ op ∈ callsAt b, op.kind = .deletePrefix ∨ op.kind = .append)
+    {F G : Store}
+    (hF : seqRun cfg (stdSem cfg) Store.empty ((List.range' s.init (s.end_ - s.init)).map callsAt) = .ok F)
+    (hG : squashRun cfg (stdSem cfg) Store.empty (segmenterCut s callsAt) = some G) :
+    ∀ k, look F.kv k = look G.kv k := by
+  rw [← segmenterCut_flatten s hk hlt callsAt] at hF
+  exact model_squash_eq_sequential_append cfg hpol (segmenterCut s callsAt)
+    (callsAre_segmenterCut _ s hk hlt callsAt ha) hF hG
+
+/-- **C13 ∘ C02** for `set_if_not_exists`. -/
+theorem model_squash_segmenter_eq_sequential_set_if_not_exists (cfg : Cfg) (sem : Sem)
+    (hpol : cfg.policy = .setIfNotExists)
+    (s : Segmenter) (hk : 0 < s.interval) (hlt : s.init < s.end_) (callsAt : Nat → List Op)
+    (ha : ∀ b, s.init ≤ b → b < s.end_ → ∀ op ∈ callsAt b, op.kind = .deletePrefix ∨ op.kind = .setIfNotExists)
+    {F G : Store}
+    (hF : seqRun cfg sem Store.empty ((List.range' s.init (s.end_ - s.init)).map callsAt) = .ok F)
+    (hG : squashRun cfg sem Store.empty (segmenterCut s callsAt) = some G) :
+    ∀ k, look F.kv k = look G.kv k := by
+  rw [← segmenterCut_flatten s hk hlt callsAt] at hF
+  exact model_squash_eq_sequential_set_if_not_exists cfg sem hpol (segmenterCut s callsAt)
+    (callsAre_segmenterCut _ s hk hlt callsAt ha) hF hG
 
 /-! ### Non-vacuity of layer B: concrete histories on which both runs succeed -/
 
